@@ -242,6 +242,15 @@ pub enum Op {
         w: [u16; 4],
         pi: Pi,
     },
+    /// hook-only: a row with every selector explicit on four fresh witnesses
+    /// holding `vals`; with `next`, followed by an unselected anchor row on
+    /// four fresh witnesses holding those values
+    Raw {
+        sel: Vec<Fe>,
+        vals: [Fe; 4],
+        next: Option<[Fe; 4]>,
+        pi: Pi,
+    },
     Pad(u16),
 }
 
@@ -281,6 +290,7 @@ impl Op {
             Op::SelectPoint { .. } => "component_select_point",
             Op::MulGenerator { .. } => "component_mul_generator",
             Op::RawArith { .. } => "raw_arith_row",
+            Op::Raw { .. } => "raw_row",
             Op::Pad(_) => "pad",
         }
     }
@@ -864,6 +874,29 @@ pub fn run_ops(
                     piv,
                     [t.wits[a], t.wits[b], t.wits[cc], t.wits[d]],
                 );
+            }
+            Op::Raw { sel, vals, next, pi } => {
+                let mut s11 = [F::zero(); 11];
+                for (i, x) in sel.iter().take(11).enumerate() {
+                    s11[i] = x.0;
+                }
+                let mut ws = [Composer::ZERO; 4];
+                for k in 0..4 {
+                    ws[k] = c.append_witness(vals[k].0);
+                    t.push(ws[k], vals[k].0, oi);
+                }
+                if let Some(p) = pi.opt() {
+                    t.public.push(p);
+                }
+                c.verif_append_raw_gate(s11, pi.opt(), ws);
+                if let Some(nx) = next {
+                    let mut ns = [Composer::ZERO; 4];
+                    for k in 0..4 {
+                        ns[k] = c.append_witness(nx[k].0);
+                        t.push(ns[k], nx[k].0, oi);
+                    }
+                    c.verif_append_raw_gate([F::zero(); 11], None, ns);
+                }
             }
             Op::Pad(k) => {
                 for _ in 0..*k {
